@@ -145,12 +145,12 @@ PROPS = {
         explanation='CRDT mutators, clock and merge proved (Verus, Kani); the gossip manager as caller of those contracts and long merge orders are bounded (c17_manager, c17_merge).',
     ),
     'C18': dict(
-        v=['C18_path'], k=[('graph_engine', ['c18_dijkstra_entry_total_order', 'c18_dijkstra_entry_min_heap_direction'])], b=['c18_paths'],
-        pairs={'C18_path': ['bounded:c18_paths']},
+        v=['C18_path', 'C18_unionfind'], k=[('graph_engine', ['c18_dijkstra_entry_total_order', 'c18_dijkstra_entry_min_heap_direction'])], b=['c18_paths'],
+        pairs={'C18_path': ['bounded:c18_paths'], 'C18_unionfind': ['bounded:c18_paths']},
         level='other',
-        technique='Verus: GraphEngine::find_path and reconstruct_path extracted and proved SOUND for every graph and filter (a returned path starts at the source, ends at the target, each step is an existing edge accepted by the filter and walked in an allowed direction, intermediate nodes pass the node filter) with a ghost BFS depth map making the parent pointers well-founded; Kani full-domain harnesses on the Dijkstra heap entry ordering; bounded native checks of optimality, completeness, weighted search, traversals, variable-length matches and the graph algorithms against brute force on small multigraphs',
-        claim='validity of every path returned by find_path proved for all graphs (Verus; graph reads uninterpreted, termination not proved); heap entry order is total, NaN-safe and min-first (Kani, complete); BOUNDED: fewest hops / lowest weight / PathNotFound iff none, traversal and variable-length result sets, component / MST / k-core / triangle algorithms vs definitions on all enumerated multigraphs',
-        explanation='Path validity of find_path and the heap order kernel proved; optimality, completeness and the other queries bounded.',
+        technique='Verus: GraphEngine::find_path and reconstruct_path extracted and proved SOUND for every graph and filter (a returned path starts at the source, ends at the target, each step is an existing edge accepted by the filter and walked in an allowed direction, intermediate nodes pass the node filter) with a ghost BFS depth map making the parent pointers well-founded; the union-find behind connected_components (UnionFind::find / union) extracted and proved against a representative function with a ghost height map: find returns the representative and changes no set, union merges exactly the two sets, for every forest; Kani full-domain harnesses on the Dijkstra heap entry ordering; bounded native checks of optimality, completeness, weighted search, traversals, variable-length matches and the graph algorithms against brute force on small multigraphs',
+        claim='validity of every path returned by find_path proved for all graphs (Verus; graph reads uninterpreted, termination not proved); union-find set semantics proved for all forests (Verus; ranks below usize::MAX; UnionFind::new and the edge loop not covered); heap entry order is total, NaN-safe and min-first (Kani, complete); BOUNDED: fewest hops / lowest weight / PathNotFound iff none, traversal and variable-length result sets, component / MST / k-core / triangle algorithms vs definitions on all enumerated multigraphs',
+        explanation='Path validity of find_path, the union-find kernel and the heap order kernel proved; optimality, completeness and the other queries bounded.',
     ),
     'C19': dict(
         v=['C19_chunk', 'C19_refs'], k=[], b=['c19_blob'],
@@ -161,13 +161,13 @@ PROPS = {
         explanation='Reference-count kernel and chunk arithmetic proved; byte-level round trips, full_gc/repair and streaming bounded; concurrent writers/gc not covered.',
     ),
     'C20': dict(
-        v=['C20_ids', 'C20_rle', 'C06_sparse', 'C20_frame'],
+        v=['C20_ids', 'C20_rle', 'C06_sparse', 'C20_frame', 'C20_sparsevec'],
         k=[('tensor_chain', ['c20_frame_flags_roundtrip', 'c20_method_from_flags_total', 'c20_length_prefix_roundtrip']),
            ('tensor_store', ['c07_header_roundtrip_fields', 'c07_header_roundtrip_bytes', 'c07_header_validate_exact'])],
-        b=['c20_ids', 'c20_frames', 'c20_garbage'],
-        pairs={'C20_ids': ['bounded:c20_ids'], 'C20_frame': ['bounded:c20_frames']},
+        b=['c20_ids', 'c20_frames', 'c20_garbage', 'c20_vectors'],
+        pairs={'C20_ids': ['bounded:c20_ids'], 'C20_frame': ['bounded:c20_frames'], 'C20_sparsevec': ['bounded:c20_vectors']},
         level='other',
-        technique='Verus: extracted delta/varint/compress_ids/rle/sparse codecs proved against spec functions + round-trip theorems; Kani: frame flags, length prefix, snapshot header; bounded native pair for replay',
+        technique='Verus: extracted delta/varint/compress_ids/rle/sparse codecs proved against spec functions + round-trip theorems; the sparse snapshot vector arm of decompress_vector proved total and panic-free for every (dimension, position list, values); Kani: frame flags, length prefix, snapshot header; bounded native pair for replay',
         claim='id-list, varint, RLE and sparse codecs are exact inverses for ALL inputs and total on arbitrary bytes (Verus, unbounded); frame flag/length-prefix/header codecs (Kani, complete); bounded native pair supplies replayable inputs',
         explanation='Deductive part: every obligation of the V/K units. Bounded part (labelled): native enumeration used to attach concrete inputs to failed obligations.',
     ),
